@@ -195,10 +195,19 @@ def impl_helpers(case):
             [X.obs_ctx(RadiusExpand.extract_k(I, k)) for k in case["helpers"]]]
 
 
+def _lre_json(case):
+    """the ITS of an lre case in networkx iteration order: the literal of the case, or (kind lre-corpus) the ITS of a corpus reaction
+    rebuilt from its own edge iteration order, so that implementation and model read the same adjacency order"""
+    if "I" in case:
+        return case["I"]
+    from synkit.IO.chem_converter import rsmi_to_its
+    return X.canon(E.from_nx(rsmi_to_its(case["rsmi"])))
+
+
 def impl_lre(case):
     from synkit.Graph.ITS.its_decompose import get_rc
     from synkit.Graph.Context.radius_expand import RadiusExpand
-    I = E.to_nx(case["I"])
+    I = E.to_nx(_lre_json(case))
     rcn = list(get_rc(I).nodes())
     path = RadiusExpand.longest_radius_extension(I, list(rcn))
     return [list(path), X.obs_ctx(RadiusExpand.extract_k(I, -1)),
@@ -871,7 +880,7 @@ def coq_case(case):
         if "Is" in case:
             return "run_list %s (%d)" % (X.coq_its_list(case["Is"]), case["k"])
         if case.get("lre"):
-            return "run_lre %s" % E.coq_its(case["I"])
+            return "run_lre %s" % E.coq_its(_lre_json(case))
         if "helpers" in case:
             ks = "[%s]" % "; ".join("(%d)" % k for k in case["helpers"])
             if "I" in case:
@@ -1216,7 +1225,8 @@ def _longest_zero_path_from(I, start, limit=200000):
 def oracle_lre(case):
     from synkit.Graph.ITS.its_decompose import get_rc
     from synkit.Graph.Context.radius_expand import RadiusExpand
-    I = E.to_nx(case["I"])
+    gj = _lre_json(case)
+    I = E.to_nx(gj)
     rc_nodes = list(get_rc(I).nodes())
     path = RadiusExpand.longest_radius_extension(I, list(rc_nodes))
     fails = []
@@ -1235,7 +1245,7 @@ def oracle_lre(case):
     # renumbering the atoms (same insertion / adjacency order) renumbers the extension path and the maximum-radius context (theorem C02_extract_k_z_equivariant)
     import networkx as nx
     pi = {n: 2 * n + 1001 for n in I.nodes}
-    J = nx.relabel_nodes(E.to_nx(case["I"]), pi, copy=True)
+    J = nx.relabel_nodes(E.to_nx(gj), pi, copy=True)
     pathJ = RadiusExpand.longest_radius_extension(J, list(get_rc(J).nodes()))
     if list(pathJ) != [pi[n] for n in path] or set(RadiusExpand.extract_k(J, -1).nodes) != {pi[n] for n in ctx.nodes}:
         fails.append(dict(clause="context-renumbering", detail="after renumbering n -> 2n+1001 the extension path is %r (expected %r) / the n_knn=-1 context differs" % (list(pathJ), [pi[n] for n in path])))
@@ -1473,8 +1483,24 @@ def distribution(cases, obss):
     sizes, rcs, grow, hh, incons, empty = {}, {}, 0, 0, 0, 0
     kinds, opt_eff, lre_len, ia_zeroed = {}, {"keep_mtg": 0, "disconnected": 0, "both_differ_from_each": 0}, {}, 0
     hist_ops = {}
+    r5 = {"pair_label_centre_with_unchanged_HH_bond": 0, "dict_call_raises": 0, "dict_call_returns": 0, "direct_nn_raises": 0, "compare_true": 0, "compare_false": 0,
+          "pass_by_pass_later_pass_adds": 0}
     for c, o in zip(cases, obss):
         kinds[c.get("kind", "?")] = kinds.get(c.get("kind", "?"), 0) + 1
+        try:
+            if ("S" in c or "sopts" in c) and "shist" not in c and not c.get("slre") and isinstance(o, list) and len(o) == 6:
+                r5["pair_label_centre_with_unchanged_HH_bond"] += any(e[4] == 0 for e in o[0][0][1]["__set__"])
+            elif "api" in c and ("D" in c or "Ds" in c):
+                r5["dict_call_raises" if o == [] else "dict_call_returns"] += 1
+            elif "api" in c and "nn" in c:
+                r5["direct_nn_raises"] += any(x == [] for x in o[0])
+            elif "api" in c and "sels" in c:
+                for pair in o[0]:
+                    r5["compare_true" if pair[0] else "compare_false"] += 1
+            elif "api" in c and "steps" in c and isinstance(o, list) and len(o) == 5:
+                r5["pass_by_pass_later_pass_adds"] += o[0] != o[3]
+        except Exception:
+            pass
         if "S" in c or "sopts" in c or "api" in c:
             continue
         if "hist" in c:
@@ -1513,7 +1539,7 @@ def distribution(cases, obss):
             incons += 1
         if "ia" in c and c["ia"] and any(e[4] == 0 and e[2] != e[3] for e in o[3][1]["__set__"]):
             ia_zeroed += 1
-    return dict(history_step_kinds=hist_ops, option_changes_centre=opt_eff, longest_extension_lengths=lre_len,
+    return dict(round5=r5, history_step_kinds=hist_ops, option_changes_centre=opt_eff, longest_extension_lengths=lre_len,
                 ignore_aromaticity_its_with_zeroed_half_order_change=ia_zeroed, context3_sizes=sizes, centre_sizes=rcs, strictly_growing_to_radius_3=grow, centre_with_unchanged_HH_bond=hh,
                 centre_with_inconsistent_standard_order=incons, empty_centre=empty)
 
@@ -1783,6 +1809,7 @@ def gen_corpus_ext(rng, n_sample):
         cases.append(dict(kind="rw-renum10", rsmi=X.renumber_into(r, rng, 10, 100), orig=r, src=src))
         cases.append(dict(kind="rw-renum100", rsmi=X.renumber_into(r, rng, 100, 1000), orig=r, src=src))
         cases.append(dict(kind="help-corpus", rsmi=r, src=src, helpers=HELPER_RADII))
+        cases.append(dict(kind="lre-corpus", rsmi=r, src=src, lre=True))          # n_knn = -1 on real ITS graphs (round 5)
         rr = X.ring_digits_plus(r)
         if rr is not None:
             cases.append(dict(kind="rw-ring10", rsmi=X.renumber_into(rr, rng, 10, 100), orig=r, src=src))
